@@ -41,6 +41,8 @@ def check(model: Model, rep: Report, tier: str):
     from .c05 import k10
     with rep.isolated():
         k10(model, rep, "C07.A10")
+    with rep.isolated():
+        a11(model, rep, "C07.A11")
     from .c05 import check_registry_copy
     rep.rule("C07.A6", "copies re-target their acquisition registry through the lookup (= C05.K6) and every sub-circuit handed to add() takes the copying path (= C02.L7)")
     with rep.isolated():
@@ -53,6 +55,52 @@ def check(model: Model, rep: Report, tier: str):
         share_rule(rep, model, _k1_k2, "C07.A6", rep.rules_text["C07.A6"], only_rules=None)
     rep.rules_text["C07.A6"] = ("copies re-target their acquisition registry through the lookup (= C05.K6), keep tag and strategy (= C05.K1) and every sub-circuit "
                                 "handed to add() takes the copying path (= C02.L7)")
+
+
+def a11(model: Model, rep: Report, rule: str):
+    """Library constructors hand the component builders the registry of the circuit they return."""
+    rep.rule(rule, "in every library circuit constructor the `registry=` handed to a component builder is <the returned circuit>.acquisition_registry: measurements created "
+                   "against the registry of an inner block keep indexing that block when they are added next to it (index -1 at circuit level)")
+    from ..alias import _bindings
+    n = 0
+    for f in model.all_functions():
+        rel = f.module.relpath.replace("\\", "/")
+        if "/library/" not in rel or not rel.endswith("circuit_constructors.py") or f.cls is not None:
+            continue
+        if any(p.arg == "registry" for p in f.params):
+            continue
+        returned = {r.value.id for r in ast.walk(f.node) if isinstance(r, ast.Return) and isinstance(r.value, ast.Name)}
+        if len(returned) != 1:
+            continue
+        R = next(iter(returned))
+        for c in ast.walk(f.node):
+            if not isinstance(c, ast.Call):
+                continue
+            for k in c.keywords:
+                if k.arg != "registry":
+                    continue
+                e = k.value
+                hops = 0
+                while isinstance(e, ast.Name) and hops < 3:
+                    bs = _bindings(f.node, e.id)
+                    if len(bs) != 1 or bs[0] is None:
+                        break
+                    e = bs[0]
+                    hops += 1
+                if not (isinstance(e, ast.Attribute) and e.attr == "acquisition_registry" and isinstance(e.value, ast.Name)):
+                    continue            # not a registry taken from a local circuit: nothing to compare
+                n += 1
+                src = e.value.id
+                # the circuit the built component is added to: X.add(<this call>)
+                added_to = None
+                for a_ in ast.walk(f.node):
+                    if isinstance(a_, ast.Call) and isinstance(a_.func, ast.Attribute) and a_.func.attr == "add" and isinstance(a_.func.value, ast.Name) and any(x is c for x in a_.args):
+                        added_to = a_.func.value.id
+                rep.check(src == R or (added_to is not None and src == added_to), rule, f"{f.name}[registry of {ast.unparse(c.func)}]", f"{f.module.relpath}:{c.lineno}", found=f"{src}.acquisition_registry (the function returns {R})",
+                          required=f"{R}.acquisition_registry (or the registry of the circuit the component is added to)",
+                          what=f"{ast.unparse(c.func)} creates its measurements against the registry of `{src}`, but they are added to `{added_to or R}`: their registry is never "
+                          f"re-targeted (it is only when `{src}` itself is nested), so their circuit-level index is -1", detail=f"registry:{ast.unparse(c.func)}")
+    rep.floor(f"{rule} registry arguments in library constructors", n, 4)
 
 
 def a9(model: Model, rep: Report, rule: str):
